@@ -385,7 +385,7 @@ let gen_sources r ~tier oc =
 let names_of (l : (byte list * byte list) list) = List.map (fun (k, _) -> string_of_bytes k) l
 let shapes = [| "mis"; "msi"; "mss"; "ss"; "is"; "arr"; "fs"; "nest"; "st"; "pst"; "nilp"; "nili"; "tnil"; "ch"; "fn"; "big"; "minint"; "u64"; "nan";
                 "inf"; "ninf"; "f"; "i"; "z"; "neg"; "s"; "e"; "bad"; "t"; "n"; "any"; "m"; "bytes"; "mf"; "mia"; "mai"; "pp"; "tm"; "ntm"; "dur"; "emb";
-                "long"; "longany"; "lol"; "named"; "empty"; "emap"; "mix"; "pmix"; "undefined_var" |]
+                "long"; "longany"; "lol"; "named"; "empty"; "emap"; "mix"; "pmix"; "nmss"; "nmsa"; "nmis"; "nmst"; "undefined_var" |]
 let lits = [| "0"; "1"; "-1"; "2"; "3.5"; "'a'"; "''"; "null"; "true"; "[]"; "[1, 2]"; "{'a': 1}"; "{}"; "9223372036854775807"; "-9223372036854775807";
               "1000000000"; "'z-a'"; "'%s %d'"; "'Y-m-d'"; "','"; "[[1]]"; "'a\\'b'" |]
 let arg r = if rint r 3 = 0 then pick r shapes else pick r lits
@@ -435,7 +435,7 @@ let gen_render r ~tier oc =
   Array.iter (fun v ->
     List.iter (fun tpl -> emit_render oc "access" (Str_compat.replace_all tpl "$" v))
       [ "{{ $ }}"; "{{ $.a }}"; "{{ $.X }}"; "{{ $.Hello }}"; "{{ $.PtrM }}"; "{{ $.Args }}"; "{{ $.Args(1) }}"; "{{ $.Two }}"; "{{ $.nosuch.deeper }}"; "{{ $.P.A }}"; "{{ $.Q.A }}"; "{{ $.Name }}"; "{{ $.Title }}"; "{{ $.Zap }}"; "{{ $.Add }}"; "{{ $.Add(1) }}"; "{{ $.With(1, 2) }}"; "{{ $.Name() }}";
-        "{{ $.hidden }}"; "{{ $.y }}"; "{{ $[0] }}"; "{{ $[-1] }}"; "{{ $[99] }}"; "{{ $['a'] }}"; "{{ $[1.5] }}"; "{{ $[true] }}"; "{{ $[null] }}"; "{{ $[undefined_var] }}";
+        "{{ $.hidden }}"; "{{ $.y }}"; "{{ $.T.a }}"; "{{ $.T['zz'] }}"; "{{ $.N[0] }}"; "{{ $.b }}"; "{{ $['b'] }}"; "{{ $[1] }}"; "{{ $[named] }}"; "{{ $[s] }}"; "{{ $[0] }}"; "{{ $[-1] }}"; "{{ $[99] }}"; "{{ $['a'] }}"; "{{ $[1.5] }}"; "{{ $[true] }}"; "{{ $[null] }}"; "{{ $[undefined_var] }}";
         "{{ $[nan] }}"; "{{ $[big] }}"; "{{ $[minint] }}"; "{{ $[[]] }}"; "{{ $[{}] }}"; "{{ $[ss] }}"; "{{ $[st] }}"; "{{ $[fn] }}"; "{{ $[ch] }}"; "{{ $[nilp] }}";
         "{{ -$ }}"; "{{ +$ }}"; "{{ not $ }}"; "{{ $ ? 1 : 2 }}"; "{{ $ ?: 'd' }}"; "{{ $ ?? 'd' }}"; "{% for q in $ %}{{ q }}{% endfor %}";
         "{% for k, q in $ %}{{ k }}{{ q }}{{ loop.index }}{% else %}e{% endfor %}"; "{% set w = $ %}{{ w }}"; "{% if $ %}y{% elseif not $ %}n{% endif %}";
@@ -456,7 +456,8 @@ let gen_render r ~tier oc =
       "{{ st.X }}", "7"; "{{ pst.X }}", "7"; "{{ st.Name }}", "n"; "{{ pst.Name }}", "n"; "{{ pst.P.A }}", "1"; "{{ st.M.k }}", "1"; "{{ st.L[0] }}", "l";
       "{% for k in [pmix, mix] %}{{ k.Name }};{% endfor %}", "mixed p;mixed v;"; "{{ pmix.Name ~ '/' ~ pmix.Title }}", "mixed p/title";
       "{% set q = pmix %}{{ q.Name }}", "mixed p"; "{{ [pmix][0].Title }}", "title"; "{{ pmix.Name|upper }}", "MIXED P";
-      "{% if pmix.Title %}y{% endif %}", "y"; "{{ mis[1] }}{{ msi.a }}{{ ss[0] }}{{ arr[2] }}", "a1a3" ];
+      "{% if pmix.Title %}y{% endif %}", "y"; "{{ mis[1] }}{{ msi.a }}{{ ss[0] }}{{ arr[2] }}", "a1a3";
+      "{{ nmss.a }}{{ nmss['b'] }}{{ nmss.zz }}|{{ nmsa.a }}|{{ nmis[1] }}{{ nmis[9] }}|{{ nmst.T.a }}{{ nmst.N[0] }}", "xy|1|one|t7" ];
   List.iter (fun tpl -> emit_render oc "special" tpl)
     [ "{{ range(0, 9223372036854775807)|length }}"; "{{ range(1, 1000000000)|length }}"; "{{ range(9223372036854775807, 9223372036854775807)|length }}";
       "{{ range(0, 9223372036854775807, 5000000000000000000)|length }}"; "{{ range(1, 3, 0) }}"; "{{ range(3, 1, 1)|length }}"; "{{ range(1, 3, -1)|length }}";
